@@ -236,7 +236,66 @@ def grid_mesh(g, kind):
         xyz = unit(g._ds["node_lon"].values, g._ds["node_lat"].values)
     else:
         xyz = np.stack([g._ds["node_x"].values, g._ds["node_y"].values, g._ds["node_z"].values], axis=-1)
-    return meshes.AMesh([[int(v) for v in r if v != INT_FILL] for r in t], xyz, False, kind)
+    m = meshes.AMesh([[int(v) for v in r if v != INT_FILL] for r in t], xyz, False, kind)
+    m.w = int(t.shape[1])  # the grid's table may be wider than its widest face (a source with a spare padding column)
+    return m
+
+
+def grid_rows(m):
+    return m.rows(getattr(m, "w", None))
+
+
+def dialect_dataset(case):
+    """the UGRID-convention dataset of C01's dialect `case` (harness/c01.py: gen_ugrid draws it, conn_array /
+    ugrid_optional_elements / src_lon write it - imported, not copied); every table in its OWN dialect.  Kept inside
+    the readers' quantifier: an undeclared base only where index 0 is used, no optional table with an empty row."""
+    import xarray as xr
+
+    from . import c01
+
+    dl, faces, n = case["dialect"], case["faces"], len(case["lon"])
+    nm = dl["names"]
+
+    def table(rows, t, n_elem):
+        if not rows or any(len(r) == 0 for r in rows):
+            return None
+        w = max(map(len, rows)) + t["extra_w"]
+        fill = t["fill"]
+        if fill is None and any(len(r) != w for r in rows):
+            fill = -1
+        declared = t["declared"] or not any(0 in r for r in rows)
+        arr = c01.conn_array(rows, w, t["base"], fill, t["store"])
+        at = {}
+        if fill == "nanattr":
+            at["_FillValue"] = np.nan
+        elif fill not in (None, "nan"):
+            at["_FillValue"] = c01.NP_STORE[t["store"]](fill)
+        if declared:
+            at["start_index"] = np.int32(t["base"])
+        return arr, at
+
+    ds = xr.Dataset()
+    ds[nm["mesh"]] = xr.DataArray(np.int32(0), attrs=dict(cf_role="mesh_topology", topology_dimension=2,
+                                                         node_coordinates=f"{nm['x']} {nm['y']}", face_node_connectivity=nm["conn"]))
+    ds[nm["x"]] = xr.DataArray(c01.src_lon(case), dims=[nm["nd"]], attrs=dict(standard_name="longitude", units="degrees_east"))
+    ds[nm["y"]] = xr.DataArray(np.asarray(case["lat"], float), dims=[nm["nd"]], attrs=dict(standard_name="latitude", units="degrees_north"))
+    arr, at = table(faces, dl, n)
+    ds[nm["conn"]] = xr.DataArray(arr, dims=[nm["fd"], nm["md"]], attrs=dict(at, cf_role="face_node_connectivity"))
+    if dl.get("tables"):
+        elems = c01.ugrid_optional_elements(faces, n)
+        for k, (name, t) in enumerate(sorted(dl["tables"].items(), key=lambda kv: kv[1].get("order", 0))):
+            rows, n_elem = elems[name]
+            r = table(rows, t, n_elem)
+            if r is None:
+                continue
+            var = f"{nm['conn']}_{name[:-13]}"
+            tat = dict(r[1])
+            if t.get("via") == "cf_role":
+                tat["cf_role"] = name
+            else:
+                ds[nm["mesh"]].attrs[name] = var
+            ds[var] = xr.DataArray(r[0], dims=[f"d{k}_rows", f"d{k}_cols"], attrs=tat)
+    return ds
 
 
 def build_grid(ux, m, source, j=None, tmp=None, hit=lambda k: None):
@@ -246,6 +305,30 @@ def build_grid(ux, m, source, j=None, tmp=None, hit=lambda k: None):
         g = ux.open_grid(str(meshfiles_dir() / j["path"]))
         m2 = grid_mesh(g, j.get("kind", "file"))
         return g, m2
+    if source == "dialect":
+        # a grid the UGRID reader makes of a source in one of C01's dialects (start_index 0/1 declared or not, fill value
+        # forms, storage types, optional tables each in its own dialect), in memory or through a file
+        case = j["dialect_case"]
+        try:
+            src = dialect_dataset(case)
+            if case.get("via_file"):
+                fn = os.path.join(tmp, f"dl{len(os.listdir(tmp))}.nc")
+                src.to_netcdf(fn)
+                src = fn
+            g = ux.open_grid(src)
+            m2 = grid_mesh(g, m.kind + "+dialect")
+            loc0 = Locator(m)
+            ids = loc0.ids(m2.lon, m2.lat)
+            if [[int(ids[v]) for v in f] for f in m2.faces] == loc0.name_faces(m.faces):
+                dl = case["dialect"]
+                hit("source:dialect")
+                hit(f"source-dialect:start={dl['base'] if dl['declared'] else 'absent'}")
+                hit(f"source-dialect:fill={dl['fill']}/{dl['store']}")
+                return g, m2
+            hit("source:dialect-grid-differs-from-input(readers, C01)")
+        except Exception as e:
+            hit(f"source:dialect-could-not-be-built:{type(e).__name__}")
+        return meshes.to_grid(m, ux), m
     if source.startswith("reopened:"):
         # a grid that is itself the re-opened FILE of an earlier export (so it carries xarray's .encoding, the
         # reader's attributes, and - for UGRID/Exodus - every node of the first grid, unused ones included)
@@ -311,13 +394,14 @@ def execute(H, driver, stats=None):
     locs = [Locator(m) for m in ms]
     init_vars = [obs_vars(g._ds, skip=()) for g in grids]
     init_enc = [obs_encoding(g._ds) for g in grids]
+    init_start = [g._ds["face_node_connectivity"].attrs.get("start_index") for g in grids]
     failures, mismatches, steps = [], [], []
     model_ops, impl_outs = [], []
     for gi, (m0, m) in enumerate(zip(ms0, ms)):
         # a face-vertex source must describe the mesh it was given (that is the reader's property, C01)
         if m0 is None:
             hit("source:file")
-        elif H["meshes"][gi].get("source", "").startswith("reopened:"):
+        elif H["meshes"][gi].get("source", "").startswith(("reopened:", "dialect")):
             pass
         elif m is not m0:
             ids = Locator(m0).ids(m.lon, m.lat)
@@ -346,7 +430,7 @@ def execute(H, driver, stats=None):
                 same_pos = True
                 if "node_lon" in g._ds:
                     same_pos = bool(np.abs(unit(g._ds["node_lon"].values, g._ds["node_lat"].values) - m.xyz).max() < 1e-9)
-                if not (np.array_equal(g._ds["face_node_connectivity"].values, m.table()) and same_pos):
+                if not (np.array_equal(g._ds["face_node_connectivity"].values, m.table(getattr(m, "w", None))) and same_pos):
                     mismatches.append(dict(relation="C07/frame/materialise-leaves-defining-variables", step=si))
                 continue
             # ---- encode ----
@@ -378,7 +462,9 @@ def execute(H, driver, stats=None):
                 vs = obs_vars(out)
                 topo = split_topo(out["grid_topology"].attrs) if "grid_topology" in out else []
                 enc_o = obs_encoding(out)
-                obs = dict(vars=canon_vars(vs), topo=dict(topo), encoding=dict(enc_o))
+                fs_o = out["face_node_connectivity"].attrs.get("start_index") if "face_node_connectivity" in out else None
+                obs = dict(vars=canon_vars(vs), topo=dict(topo), encoding=dict(enc_o),
+                           face_node_start_index=None if fs_o is None else int(fs_o))
                 impl_outs.append(("ugrid", obs))
                 v = driver.ask("C07.ugridspec", N.vars(vs), N.topo(topo), N.topo(enc_o))
                 if v != "ok":
@@ -430,7 +516,7 @@ def execute(H, driver, stats=None):
                 obs = dict(blocks=blocks, coord=cls)
                 impl_outs.append(("exodus", obs))
                 encb = " ".join([str(len(blocks))] + [f"{k} {fid} {enc_rows(rows)}" for k, fid, rows in blocks])
-                allok, lastok = driver.ask("C07.exospec", enc_rows(m.rows()), encb).split()
+                allok, lastok = driver.ask("C07.exospec", enc_rows(grid_rows(m)), encb).split()
                 rec["blocks"] = len(blocks)
                 hit(f"exodus-blocks={min(len(blocks), 5)}")
                 if allok != "1":
@@ -451,7 +537,7 @@ def execute(H, driver, stats=None):
                 rows = loc.ids(lonc, latc).tolist() if lonc.ndim == 2 else []
                 obs = dict(corners=rows)
                 impl_outs.append(("scrip", obs))
-                if driver.ask("C07.scripspec", enc_rows(loc.name_rows(m.rows())), enc_rows(rows)) != "1":
+                if driver.ask("C07.scripspec", enc_rows(loc.name_rows(grid_rows(m))), enc_rows(rows)) != "1":
                     export_ok = False
                     fail(si, f"C07/scrip/export/corners/{q}", "the corner table of the SCRIP export does not hold the faces' corner positions in order",
                          obs, ["scrip_corners"])
@@ -566,9 +652,13 @@ def execute(H, driver, stats=None):
         def ds0(m, iv):
             names = [v[0] for v in iv]
             extras = [v for v in iv if v[0] not in ("node_lon", "node_lat", "face_node_connectivity")]
-            return f"{enc_rows(m.rows())} {m.n_node} {int('node_lon' in names)} {N.vars(extras)}"
+            return f"{enc_rows(grid_rows(m))} {m.n_node} {int('node_lon' in names)} {N.vars(extras)}"
 
-        encg = " ".join([str(len(ms))] + [ds0(m, iv) + " " + N.topo(ie) for m, iv, ie in zip(ms, init_vars, init_enc)])
+        def st0(v):
+            return "0 0" if v is None else f"1 {int(v)}"
+
+        encg = " ".join([str(len(ms))] + [ds0(m, iv) + " " + N.topo(ie) + " " + st0(fs)
+                                          for m, iv, ie, fs in zip(ms, init_vars, init_enc, init_start)])
         ans = common.Tok(driver.ask("C07.run", REPAIRED, N.topo(base), encg, str(len(model_ops)), " ".join(model_ops)))
         model_outs = parse_outs(ans, N)
         final_tmpl = parse_topo(ans, N)
@@ -641,7 +731,9 @@ def parse_outs(t, N):
             topo = parse_topo(t, N)
             vs = parse_vars(t, N)
             enc_m = parse_topo(t, N)
-            outs.append(("ugrid", dict(vars=canon_vars(vs), topo=dict(topo), encoding={k: sorted(v) for k, v in enc_m if v})))
+            has_s, val_s = t.int(), t.int()
+            outs.append(("ugrid", dict(vars=canon_vars(vs), topo=dict(topo), encoding={k: sorted(v) for k, v in enc_m if v},
+                                       face_node_start_index=val_s if has_s else None)))
         elif tag == 2:
             if t.int() == 0:
                 outs.append(("exodus", None))
@@ -741,6 +833,38 @@ ENTRIES = ["to_xarray", "encode_as", "to_xarray()"]  # to_xarray() = the default
 def api(rng):
     """every public entry point that exports, drawn at random (both map to the ONE model operation Op.encode)"""
     return rng.choice(["to_xarray", "to_xarray", "encode_as", "encode_as", "to_xarray()"])
+
+
+def dialect_json(m, case):
+    return dict(mesh_json(m, "dialect"), dialect_case=case)
+
+
+def dialect_histories(rng, count):
+    """grids the UGRID reader makes of sources in C01's dialects (drawn by C01's own generator), exported in all three
+    formats through both dispatchers; the declared one-based sources (FESOM / Fortran style) are always there"""
+    from . import c01
+
+    out = []
+    forced = [dict(base=1, declared=True), dict(base=1, declared=False), dict(base=0, declared=False), dict(base=0, declared=True),
+              dict(base=1, declared=True, via_file=True), dict(base=1, declared=True, tables=True)]
+    for i in range(count):
+        m = pick_mesh(rng, cls=rng.choice(["two", "three", "uniform4", "uniform3", "partial"]))
+        if "unused@" in m.kind and rng.random() < 0.5:
+            pass  # unused nodes stay: the reader keeps them, an undeclared base is then forced to be declared
+        case = c01.gen_ugrid(rng, m)
+        if i < len(forced):
+            f = forced[i]
+            case["dialect"]["base"], case["dialect"]["declared"] = f["base"], f["declared"]
+            case["via_file"] = f.get("via_file", case["via_file"])
+            if f.get("tables") and not case["dialect"].get("tables"):
+                case["dialect"]["tables"] = {x: dict(c01.draw_table_dialect(rng, x == "edge_node_connectivity"), order=k, via="attr")
+                                             for k, x in enumerate(["edge_node_connectivity", "face_edge_connectivity", "node_face_connectivity"])}
+        ops = [["enc", 0, f_, api(rng)] for f_ in FMTS]
+        if rng.random() < 0.4:
+            ops.insert(0, ["mat", 0, rng.sample(["edge_node_connectivity", "face_face_connectivity", "face_lon", "node_x"], 2)])
+        ops.append(["enc", 0, "ugrid", rng.choice(["to_xarray", "encode_as"])])
+        out.append(dict(meshes=[dialect_json(m, json.loads(json.dumps(common._jsonable(case))))], ops=ops))
+    return out
 
 
 def file_histories(rng, thorough):
@@ -1000,7 +1124,9 @@ def run(ctx):
     ctx.rule = ("histories [materialise S on g_i | encode g_j as ugrid/exodus/scrip via Grid.to_xarray(fmt), Grid.to_xarray() or Grid.encode_as(FMT), "
                 "drawn at random and all mapped to the one model operation] over 1-3 grids; grids also opened from every readable sample "
                 "file under test/meshfiles (UGRID, Exodus, SCRIP, MPAS, GEOS-CS; ESMF/RLL1deg in the thorough tier) and grids that are "
-                "the re-opened netCDF file of an earlier UGRID/Exodus/SCRIP export (unused first nodes included); xarray's .encoding of "
+                "the re-opened netCDF file of an earlier UGRID/Exodus/SCRIP export (unused first nodes included) and grids the UGRID reader "
+                "makes of sources in every dialect C01 generates (start_index 0/1 declared or not, fill forms, storage types, optional "
+                "tables each in its own dialect; harness/c01.py's generator and writers are imported); xarray's .encoding of "
                 "every variable is observed and judged by the model's to_netcdf conflict rule "
                 "(harness/meshes generators, built by Grid.from_topology (lon/lat only) or Grid.from_face_vertices (Cartesian only): uniform tri/quad, prisms/antiprisms (two sizes), split prisms and merged duals "
                 "(three or more sizes), partial lattices/fans/isolated faces, random renumbering/rotation, nodes that no face uses at the "
@@ -1034,6 +1160,8 @@ def run(ctx):
         run_history(ctx, H, "directed")
     for H in file_histories(rng, ctx.thorough or ctx.escalate):
         run_history(ctx, H, "sample-file")
+    for H in dialect_histories(rng, ctx.n(14, 160)):
+        run_history(ctx, H, "ugrid-dialect-source")
     for _ in range(ctx.n(24, 1200)):
         run_history(ctx, random_history(rng, big=ctx.thorough), "random")
     for H in subset_histories(rng, None if (ctx.thorough or ctx.escalate) else 10):
